@@ -14,6 +14,21 @@ from .model import (
 )
 
 
+class _IdCache(dict):
+    """
+    Cache keyed by ``id(obj)``. The keyed objects are kept alive together with their
+    entries, so the id of a collected sample is never reused for another sample.
+    """
+
+    def __init__(self):
+        super().__init__()
+        self._alive = {}
+
+    def key(self, obj):
+        self._alive[id(obj)] = obj
+        return id(obj)
+
+
 def sum_gradient(fs, var, weight=1.0, trans=tf.identity, args=(), kwargs=None):
     """
     NLL is the sum of trans(f(data)):math:`*`weight; gradient is the derivatives for each variable in ``var``.
@@ -138,11 +153,11 @@ class ModelCachedInt(Model):
 
     def __init__(self, amp, w_bkg=1.0):
         super(ModelCachedInt, self).__init__(amp, w_bkg)
-        self.cached_int = {}
-        self.cached_amp = {}
+        self.cached_int = _IdCache()
+        self.cached_amp = _IdCache()
 
     def build_cached_int(self, mcdata, mc_weight, batch=65000):
-        mc_id = id(mcdata)
+        mc_id = self.cached_int.key(mcdata)
         if isinstance(mcdata, dict):
             mcdata = split_generator(mcdata, batch)
             mc_weight = split_generator(mc_weight, batch)
@@ -191,7 +206,7 @@ class ModelCachedInt(Model):
         :return:
         """
         sw = tf.reduce_sum([tf.reduce_sum(i) for i in weight])
-        data_id = id(data)
+        data_id = self.cached_amp.key(data)
         data = list(data)
         weight = list(weight)
         if data_id not in self.cached_amp:
@@ -205,7 +220,7 @@ class ModelCachedInt(Model):
             trans=clip_log,
         )
         # print(ln_data, ln_data2, np.allclose(g_ln_data, g_ln_data2))
-        mc_id = id(mcdata)
+        mc_id = self.cached_int.key(mcdata)
         if mc_id not in self.cached_int:
             self.build_cached_int(mcdata, mc_weight)
         with tf.GradientTape() as tape:
@@ -261,7 +276,7 @@ class ModelCachedInt(Model):
                 [mc_weight] * data_shape(mcdata), dtype="float64"
             )
             mc_weight = mc_weight / tf.reduce_sum(mc_weight)
-        mc_id = id(mcdata)
+        mc_id = self.cached_int.key(mcdata)
         if mc_id not in self.cached_int:
             self.build_cached_int(mcdata, mc_weight)
         with tf.GradientTape(persistent=True) as tape0:
@@ -310,10 +325,10 @@ class ModelCachedAmp(Model):
     def __init__(self, amp, w_bkg=1.0):
         super(ModelCachedAmp, self).__init__(amp, w_bkg)
         self.cached_amp = build_amp.build_amp2s(amp.decay_group)
-        self.cached_data = {}
+        self.cached_data = _IdCache()
 
     def sum_nll_grad_bacth(self, data):
-        data_id = id(data)
+        data_id = self.cached_data.key(data)
         data = list(data)
         weight = [i.get("weight", tf.ones((data_shape(i),))) for i in data]
         if data_id not in self.cached_data:
@@ -332,7 +347,7 @@ class ModelCachedAmp(Model):
         return -ln_data, [-i for i in g_ln_data]
 
     def sum_log_integral_grad_batch(self, mcdata, ndata):
-        mc_id = id(mcdata)
+        mc_id = self.cached_data.key(mcdata)
         mcdata = list(mcdata)
         mc_weight = [i["weight"] for i in mcdata]
         if mc_id not in self.cached_data:
@@ -370,7 +385,7 @@ class ModelCachedAmp(Model):
         :return:
         """
         sw = tf.reduce_sum([tf.reduce_sum(i) for i in weight])
-        data_id = id(data)
+        data_id = self.cached_data.key(data)
         data = list(data)
         weight = list(weight)
         if data_id not in self.cached_data:
@@ -387,7 +402,7 @@ class ModelCachedAmp(Model):
             trans=clip_log,
         )
         # print(ln_data, ln_data2, np.allclose(g_ln_data, g_ln_data2))
-        mc_id = id(mcdata)
+        mc_id = self.cached_data.key(mcdata)
         mcdata = list(mcdata)
         if mc_id not in self.cached_data:
             self.cached_data[mc_id] = [
@@ -434,7 +449,7 @@ class ModelCachedAmp(Model):
         :return:
         """
         sw = tf.reduce_sum([tf.reduce_sum(i) for i in weight])
-        data_id = id(data)
+        data_id = self.cached_data.key(data)
         data = list(data)
         weight = list(weight)
         if data_id not in self.cached_data:
@@ -451,7 +466,7 @@ class ModelCachedAmp(Model):
             trans=clip_log,
         )
         # print(ln_data, ln_data2, np.allclose(g_ln_data, g_ln_data2))
-        mc_id = id(mcdata)
+        mc_id = self.cached_data.key(mcdata)
         mcdata = list(mcdata)
         if mc_id not in self.cached_data:
             self.cached_data[mc_id] = [
@@ -500,7 +515,7 @@ class ModelCachedAmp(Model):
             self.hess_product_vector_i = [tf.Variable(i) for i in p]
         for i, j in zip(self.hess_product_vector_i, p):
             i.assign(j)
-        data_id = id(data)
+        data_id = self.cached_data.key(data)
         data = list(data)
         weight = list(weight)
         sw = tf.reduce_sum([tf.reduce_sum(i) for i in weight])
@@ -510,7 +525,7 @@ class ModelCachedAmp(Model):
                 for i in data
             ]
         # print(ln_data, ln_data2, np.allclose(g_ln_data, g_ln_data2))
-        mc_id = id(mcdata)
+        mc_id = self.cached_data.key(mcdata)
         mcdata = list(mcdata)
         if mc_id not in self.cached_data:
             self.cached_data[mc_id] = [
